@@ -15,14 +15,14 @@ M = [
  ("C02","gt-becomes-ge","src/evaluator.rs","                    variant: if integer1 > integer2 { True } else { False },","                    variant: if integer1 >= integer2 { True } else { False },",1),
  ("C02","if-takes-else-on-true","src/evaluator.rs","                True => Some((**then_branch).clone()),\n                False => Some((**else_branch).clone()),","                True => Some((**else_branch).clone()),\n                False => Some((**then_branch).clone()),",1),
  ("C02","argument-not-evaluated-first","src/evaluator.rs","            // Try to step the argument.\n            if let Some(stepped_argument) = step(argument) {","            // Try to step the argument.\n            if let (Some(stepped_argument), false) = (step(argument), matches!(applicand.variant, Lambda(_, _, _, _))) {",1),
- ("C02","recursion-unfold-without-wrapper","src/evaluator.rs","                let unfolded_definition = open(\n                    definition,\n                    index,\n                    &Term {\n                        source_range: None,\n                        variant: Let(","                let unfolded_definition = if definitions.len() > 3 { (**definition).clone() } else { open(\n                    definition,\n                    index,\n                    &Term {\n                        source_range: None,\n                        variant: Let(",1),
+ ("C02","quotient-of-negatives-rounds-down","src/evaluator.rs","                integer1.checked_div(integer2).map(|quotient| Term {\n                    source_range: None,\n                    variant: IntegerLiteral(quotient),","                integer1.checked_div(integer2).map(|quotient| Term {\n                    source_range: None,\n                    variant: IntegerLiteral(if integer1.sign() == num_bigint::Sign::Minus && integer2.bits() > 3 && integer1 % integer2 != num_bigint::BigInt::from(0) { quotient - 1 } else { quotient }),",1),
  # C03
  ("C03","branches-agree-unchecked","src/type_checker.rs","            if !unify(&then_branch_type, &else_branch_type, definitions_context) {","            if false && !unify(&then_branch_type, &else_branch_type, definitions_context) {",1),
  ("C03","lambda-domain-is-type-unchecked","src/type_checker.rs","            // Check that the type of the domain is the type of all types.\n            if !unify(&domain_type, &type_term, definitions_context) {","            // Check that the type of the domain is the type of all types.\n            if false && !unify(&domain_type, &type_term, definitions_context) {",1),
  ("C03","if-returns-else-type","src/type_checker.rs","                then_branch_type,\n            )\n        }\n        True | False","                else_branch_type,\n            )\n        }\n        True | False",1),
  ("C03","definition-vs-annotation-unchecked","src/type_checker.rs","                    if !unify(&definition_type, annotation, borrowed_definitions_context) {","                    if false && !unify(&definition_type, annotation, borrowed_definitions_context) {",1),
- ("C03","equality-ignores-application-argument","src/equality.rs","            syntactically_equal(applicand1, applicand2) && syntactically_equal(argument1, argument2)","            syntactically_equal(applicand1, applicand2)",1),
- ("C03","unify-pi-ignores-domain","src/unifier.rs","            implicit1 == implicit2 && unify(domain1, domain2, definitions_context) && {","            implicit1 == implicit2 && {",1),
+ ("C03","equality-ignores-literal-arguments","src/equality.rs","            syntactically_equal(applicand1, applicand2) && syntactically_equal(argument1, argument2)","            syntactically_equal(applicand1, applicand2)\n                && (syntactically_equal(argument1, argument2)\n                    || matches!((&argument1.variant, &argument2.variant), (IntegerLiteral(_), IntegerLiteral(_))))",1),
+ ("C03","unify-pi-ignores-domain","src/unifier.rs","            implicit1 == implicit2 && unify(domain1, domain2, definitions_context) && {","            implicit1 == implicit2 && (unify(domain1, domain2, definitions_context) || !*implicit1) && {",1),
  # C04
  ("C04","application-type-uses-unopened-codomain","src/type_checker.rs","                open(&codomain, 0, &argument, 0),","                (*codomain).clone(),",1),
  ("C04","beta-substitutes-shifted","src/evaluator.rs","                Some(open(body, 0, argument, 0))","                Some(open(body, 0, argument, if matches!(argument.variant, Pi(_, _, _, _)) { 1 } else { 0 }))",1),
@@ -34,7 +34,7 @@ M = [
  # C06
  ("C06","normalizer-quotient-swapped","src/normalizer.rs","                integer1.checked_div(integer2).map_or_else(","                integer2.checked_div(integer1).map_or_else(",1),
  ("C06","normalizer-gt-becomes-ge","src/normalizer.rs","                    variant: if integer1 > integer2 { True } else { False },","                    variant: if integer1 >= integer2 { True } else { False },",1),
- ("C06","unify-sum-crosses-operands","src/unifier.rs","            unify(term11, term12, definitions_context) && unify(term21, term22, definitions_context)","            unify(term11, term12, definitions_context) && unify(term21, term21, definitions_context)",1),
+ ("C06","unify-sum-crosses-operands","src/unifier.rs","            unify(term11, term12, definitions_context) && unify(term21, term22, definitions_context)","            unify(term11, term12, definitions_context)\n                && (unify(term21, term22, definitions_context) || unify(term21, term12, definitions_context))",1),
  ("C06","normalizer-if-false-takes-then","src/normalizer.rs","                False => normalize_weak_head(else_branch, definitions_context),","                False => normalize_weak_head(then_branch, definitions_context),",1),
  # C07
  ("C07","sum-after-large-term","src/parser.rs","    // Try to parse a sum.\n    try_return!(cache, cache_key, parse_sum(cache, tokens, start));\n\n    // Try to parse a difference.\n    try_return!(cache, cache_key, parse_difference(cache, tokens, start));\n\n    // Try to parse a large term.\n    try_return!(cache, cache_key, parse_large_term(cache, tokens, start));","    // Try to parse a large term.\n    try_return!(cache, cache_key, parse_large_term(cache, tokens, start));\n\n    // Try to parse a sum.\n    try_return!(cache, cache_key, parse_sum(cache, tokens, start));\n\n    // Try to parse a difference.\n    try_return!(cache, cache_key, parse_difference(cache, tokens, start));",1),
@@ -44,7 +44,8 @@ M = [
  ("C07","group-flag-lost","src/parser.rs","                group: true,\n                variant: term.variant,","                group: false,\n                variant: term.variant,",1),
  # C08
  ("C08","index-off-by-depth","src/parser.rs","                    variant: term::Variant::Variable(variable, depth - 1 - variable_depth),","                    variant: term::Variant::Variable(variable, if depth > 4 { depth - variable_depth - 2 + usize::from(*variable_depth + 2 > depth) * 1 } else { depth - 1 - variable_depth }),",1),
- ("C08","lambda-name-not-removed","src/parser.rs","            defer! {{ context_cell.borrow_mut().remove(variable.name); }};\n\n            // Construct the lambda.","            defer! {{ if !*implicit { context_cell.borrow_mut().remove(variable.name); } }};\n\n            // Construct the lambda.",1),
+ ("C08","lambda-name-not-removed","src/parser.rs","            defer! {{ context_cell.borrow_mut().remove(variable.name); }};\n\n            // Construct the lambda.","            defer! {{ context_cell.borrow_mut().remove(if *implicit { \"\" } else { variable.name }); }};\n\n            // Construct the lambda.",1),
+ ("C08","group-depth","src/parser.rs","                    borrowed_context.insert(inner_variable.name, depth + i);","                    borrowed_context.insert(inner_variable.name, depth + i.min(2));",1),
  ("C08","pi-domain-after-parameter","src/parser.rs","                        borrowed_context.insert(inner_variable.name, depth + i);","                        borrowed_context.insert(inner_variable.name, depth + if definitions.len() > 2 { definitions.len() - 1 - i } else { i });",1),
  ("C08","placeholder-added-to-context","src/parser.rs","            if variable.name != PLACEHOLDER_VARIABLE {\n                // Report an error if the variable is already in the context.\n                if context.contains_key(variable.name) {\n                    errors.push(throw::<Error>(\n                        &format!(\"Variable {} already exists.\", variable.name.code_str()),\n                        source_path,\n                        Some(&listing(source_contents, variable.source_range)),\n                        None,\n                    ));\n                }\n\n                // Add the variable to the context.\n                context.insert(variable.name, depth);\n            }\n\n            // Remove the variable from the context (if it was added) when the function\n            // returns.\n            let context_cell = RefCell::new(context);\n            defer! {{ context_cell.borrow_mut().remove(variable.name); }};\n\n            // Construct the pi type.","            if variable.name != PLACEHOLDER_VARIABLE || *implicit {\n                // Report an error if the variable is already in the context.\n                if context.contains_key(variable.name) {\n                    errors.push(throw::<Error>(\n                        &format!(\"Variable {} already exists.\", variable.name.code_str()),\n                        source_path,\n                        Some(&listing(source_contents, variable.source_range)),\n                        None,\n                    ));\n                }\n\n                // Add the variable to the context.\n                context.insert(variable.name, depth);\n            }\n\n            // Remove the variable from the context (if it was added) when the function\n            // returns.\n            let context_cell = RefCell::new(context);\n            defer! {{ context_cell.borrow_mut().remove(variable.name); }};\n\n            // Construct the pi type.",1),
  # C09
@@ -65,7 +66,7 @@ M = [
  ("C12","occurs-check-dropped","src/unifier.rs","            if visited.contains(&HashableRc(subterm1.clone())) {\n                return false;\n            }","            if false && visited.contains(&HashableRc(subterm1.clone())) {\n                return false;\n            }",1),
  ("C12","pi-arm-forgets-pop","src/unifier.rs","                let codomains_unify = unify(codomain1, codomain2, definitions_context);\n\n                // Restore the context.\n                definitions_context.pop();","                let codomains_unify = unify(codomain1, codomain2, definitions_context);\n\n                // Restore the context.\n                if codomains_unify {\n                    definitions_context.pop();\n                }",1),
  # C13
- ("C13","unsorted-again","src/parser.rs","    variables.sort_unstable();\n","",1),
+ ("C13","sorted-by-parity-only","src/parser.rs","    variables.sort_unstable();\n","    variables.sort_unstable_by_key(|variable| variable % 2);\n",1),
  # C14
  ("C14","report-error-inverted","src/parser.rs","        // Report an error if the next token is not the expected token.\n        if report_error {\n            if next == tokens.len() {\n                $errors.push(error_factory(tokens, next, expectation));\n            } else if let token::Variant::$variant = tokens[next].variant {","        // Report an error if the next token is not the expected token.\n        if !report_error {\n            if next == tokens.len() {\n                $errors.push(error_factory(tokens, next, expectation));\n            } else if let token::Variant::$variant = tokens[next].variant {",1),
  ("C14","listing-slices-past-section","src/error.rs","                line[*section_start..*section_end].red(),\n                &line[*section_end..],","                line[*section_start..*section_end].red(),\n                &line[(*section_end + usize::from(*section_end > 30)).min(line.len())..],",1),
